@@ -410,7 +410,11 @@ def retest(a):
     pid = a.pid
     meta, recs = load_results()[pid]
     todo = [r for r in recs if r["outcome"] == "survived"]
-    if a.retest != ["all"]:
+    if a.retest == ["gaps"]:
+        tp = os.path.join(ROOT, "tools", "mutsweep_triage.json")
+        tri = json.load(open(tp)) if os.path.exists(tp) else {}
+        todo = [r for r in todo if tri.get(pid + ":" + r["key"], {}).get("class") == "GAP"]
+    elif a.retest != ["all"]:
         todo = [r for r in todo if any(sel == r["key"] or sel in "%s:%d:%s @%d" % (r["file"], r["line"], r["desc"], r["col"]) for sel in a.retest)]
     exe = build_mutgen()
     w = Worker(pid, 90 + (os.getpid() % 9))
@@ -545,7 +549,7 @@ def main():
     ap.add_argument("--case-file", help="file of op<TAB>args lines (for cases too long for the command line)")
     ap.add_argument("--tags", default="verif")
     ap.add_argument("--triage", nargs=3, metavar=("SEL", "CLASS", "WHY"))
-    ap.add_argument("--retest", nargs="*", help="'all' or mutant selectors")
+    ap.add_argument("--retest", nargs="*", help="'all', 'gaps' (survivors triaged GAP) or mutant selectors")
     a = ap.parse_args()
     if a.report:
         return report()
